@@ -147,7 +147,7 @@ def plan(tier, seed, work):
             extra = [(b, v) for b in backends for v, _ in BACKENDS[b][1:]]
             which.append(extra[(i + seed) % len(extra)])
         add("corpus", name, path, None, (), cfg, which)
-    n = 24 if tier == "quick" else 160
+    n = compz.thorough_scale(tier, 24 if tier == "quick" else 160)
     per = max(1, n // len(PROFILES))
     for pi, prof in enumerate(PROFILES):
         worlds, summary = compz.gen_worlds(seed * 1000 + 500 + pi, per, **prof)
